@@ -306,7 +306,8 @@ def check_date_time(acc, pendulum, loc):
 
 def ref_comps(ia, ib):
     """Reference decomposition of the span between two instants, both expressed in UTC (the documented reading
-    for endpoints in differently named zones): whole months by floor (month shift with clamp), then the rest."""
+    for endpoints in differently named zones): whole months by floor (month shift with clamp), then the rest.
+    Given two wall clocks of one zone at one offset it is the decomposition on that wall clock."""
     lo, hi = (ia, ib) if ia <= ib else (ib, ia)
     fa, fb = seeds.fields_of_wall(lo), seeds.fields_of_wall(hi)
     mt = (fb[0] - fa[0]) * 12 + (fb[1] - fa[1])
@@ -501,6 +502,57 @@ def check_histories(acc, pendulum, loc):
 POINTS = None
 
 
+SI_ZONES = ("UTC", "America/New_York", "Asia/Tokyo", "Pacific/Auckland", "Asia/Kolkata")
+SI_PAIRS = (((2023, 1, 31, 3, 0, 0), (2023, 2, 28, 3, 0, 0)), ((2023, 1, 30, 20, 30, 0), (2023, 2, 28, 20, 30, 0)),
+            ((2022, 12, 31, 18, 0, 0), (2023, 1, 31, 12, 0, 0)), ((2023, 1, 1, 2, 0, 0), (2023, 1, 8, 2, 0, 0)),
+            ((2023, 1, 15, 23, 30, 0), (2023, 1, 16, 1, 0, 0)), ((2021, 2, 28, 22, 0, 0), (2024, 2, 29, 4, 0, 0)))
+
+
+def check_same_instant(acc, pendulum, loc, fa, fb):
+    """The same two instants shown in several zones (both endpoints in one zone, same offset), evaluated one after the
+    other in one process: each zone's phrase follows that zone's wall clock (the endpoints compare equal across zones)."""
+    d = data(loc)
+    ia, ib = obs.wall_us(fa + (0,)), obs.wall_us(fb + (0,))
+    for z in SI_ZONES:
+        (wa, oa), (wb, ob) = obs.expected_render(z, ia), obs.expected_render(z, ib)
+        if oa != ob:
+            continue
+        tz = pendulum.timezone(z)
+        a, b = obs.utc_dt(pendulum, ia).in_timezone(tz), obs.utc_dt(pendulum, ib).in_timezone(tz)
+        comps = ref_comps(obs.wall_us(wa), obs.wall_us(wb))
+        for recv, other, future in ((a, b, False), (b, a, True)):
+            for absolute in (False, True):
+                case = {"kind": "si", "loc": loc, "fa": list(fa), "fb": list(fb), "z": z}
+                r = basic(acc, "diff_for_humans", f"{loc}/same-instant-other-zone", case, lambda: recv.diff_for_humans(other, absolute, locale=loc))
+                ok = acceptable(d, comps, False, future, absolute)
+                if r is not None and ok and r not in ok:
+                    acc.mismatch("diff_for_humans", f"{loc}/same-instant-other-zone/phrase", case, r, sorted(ok))
+        r = basic(acc, "Interval.in_words", loc, case, lambda: (b - a).in_words(locale=loc))
+        e = expected_words(d, list(zip(UNITS, comps)), 0)
+        if r is not None and e is not None and r != e:
+            acc.mismatch("Interval.in_words", f"{loc}/same-instant-other-zone", case, r, e)
+
+
+def check_fold_pair(acc, pendulum, loc):
+    """A reference inside a repeated hour, first as its earlier then as its later occurrence (equal wall clocks, same
+    tzinfo - they compare equal natively): 30 and 90 minutes after 01:00 EDT."""
+    d = data(loc)
+    tz = pendulum.timezone("America/New_York")
+    a = pendulum.DateTime.create(2023, 11, 5, 1, 0, 0, 0, tz=tz, fold=0)
+    for fold, minutes in ((0, 30), (1, 90), (0, 30)):
+        b = pendulum.DateTime.create(2023, 11, 5, 1, 30, 0, 0, tz=tz, fold=fold)
+        comps = [0, 0, 0, 0, minutes // 60, minutes % 60, 0]
+        case = {"kind": "foldpair", "loc": loc}
+        r = basic(acc, "diff_for_humans", f"{loc}/fold-pair", case, lambda: b.diff_for_humans(a, locale=loc))
+        ok = acceptable(d, comps, False, True, False)
+        if r is not None and ok and r not in ok:
+            acc.mismatch("diff_for_humans", f"{loc}/fold-pair/phrase", dict(case, fold=fold), r, sorted(ok))
+        r = basic(acc, "Interval.in_words", loc, case, lambda: (b - a).in_words(locale=loc))
+        e = expected_words(d, list(zip(UNITS, comps)), 0)
+        if r is not None and e is not None and r != e:
+            acc.mismatch("Interval.in_words", f"{loc}/fold-pair", dict(case, fold=fold), r, e)
+
+
 def points():
     global POINTS
     if POINTS is None:
@@ -563,6 +615,16 @@ def run_shard(shard):
             acc.c["nontrivial"] += 1
         acc.sample({"locale": shard["locales"][0], "in_words": "every subset of 8 components x sign", "tokens": list(TOKENS),
                     "histories": "all orderings of 2 and 3 distinct calls on a cold locale cache"})
+    elif k == "same-instant":
+        for loc in shard["locales"]:
+            for fa, fb in SI_PAIRS:
+                acc.c["states"] += len(SI_ZONES)
+                acc.c["nontrivial"] += 1
+                with worker.guarded(acc, "diff_for_humans", {"kind": "si", "loc": loc, "fa": list(fa), "fb": list(fb)}):
+                    check_same_instant(acc, pendulum, loc, tuple(fa), tuple(fb))
+            with worker.guarded(acc, "diff_for_humans", {"kind": "foldpair", "loc": loc}):
+                check_fold_pair(acc, pendulum, loc)
+        acc.sample({"same_instants_in": list(SI_ZONES), "pair": [list(SI_PAIRS[0][0]), list(SI_PAIRS[0][1])]})
     elif k == "pairs":
         pts = points()
         for loc in shard["locales"]:
@@ -583,6 +645,10 @@ def replay_case(case, acc):
         check_unit_count(acc, pendulum, case["loc"], case["unit"], case["k"])
     elif k == "pair":
         check_pair(acc, pendulum, case["loc"], case["ia"], case["ib"], case.get("global", False))
+    elif k == "si":
+        check_same_instant(acc, pendulum, case["loc"], tuple(case["fa"]), tuple(case["fb"]))
+    elif k == "foldpair":
+        check_fold_pair(acc, pendulum, case["loc"])
     elif k == "words":
         check_words(acc, pendulum, case["loc"], case["kw"])
     elif k == "neg":
@@ -609,8 +675,9 @@ def plan(tier, seed):
     for loc in locs:
         for ch in seeds.chunks(pts, 4):
             shards.append({"kind": "pairs", "locales": [loc], "left": ch})
+    shards.append({"kind": "same-instant", "locales": locs})
     # unit and count come from precise_diff: the instant pairs also run on its pure-Python twin
-    py = shards if thorough else [sh for sh in shards if sh["kind"] == "pairs"] + [sh for sh in shards if sh["kind"] == "words"][::3]
+    py = shards if thorough else [sh for sh in shards if sh["kind"] in ("pairs", "same-instant")] + [sh for sh in shards if sh["kind"] == "words"][::3]
     return [({"ext": 1, "tz": "sys"}, shards), ({"ext": 0, "tz": "sys"}, py)]
 
 
